@@ -12,6 +12,7 @@ import threading
 
 import numpy as np
 
+from simkit import procstate
 from simkit import sched as simsched
 from simkit.core import Counter, EventLog, Violation, derive_seed, hash_array, hash_obj
 from simkit.rngseam import RngSeam
@@ -27,7 +28,7 @@ TF_METHODS = ("transform", "inverse", "deriv", "deriv2", "deriv3", "deriv_invers
 ELEMENTS = ["H", "C", "N", "O", "Cl", 1, 6, 7, 8, 17, "h", " c ", "cl", "He", 2, "Xx", 0, 119]
 PRESETS = ["coarse", "medium", "fine", "sg_0", "sg_1", "g1", "g2"]
 TRACE_FILES = ("grid/angular.py", "grid/coulomb.py", "grid/atomgrid.py")
-HOT_FUNCS = ("_load_precomputed_angular_grid", "load_atomic_gaussian_params")
+HOT_FUNCS = ("_load_precomputed_angular_grid", "load_atomic_gaussian_params", "__init__")
 
 
 # ================================================================================================
@@ -94,7 +95,16 @@ def _gen_op(rng, cfg):
     method = rng.choice(cfg["methods"])
     pool = cfg["pool"][method]
     if kind == "ang":
-        if rng.random() < 0.75:
+        u = rng.random()
+        if u < 0.12:
+            # key-space confusion seekers: ask for a *degree* equal to some pool key's size, or a
+            # *size* equal to some pool key's degree (clamped to the supported range)
+            d0, s0 = M.resolve(method, "degree", rng.choice(pool))
+            tab = M.tables()[method]
+            if rng.random() < 0.5:
+                return ["ang", method, "degree", min(s0, tab[-1][0]), rng.random() < 0.8]
+            return ["ang", method, "size", max(d0, 1), rng.random() < 0.8]
+        if u < 0.75:
             return ["ang", method, "degree", rng.choice(pool), rng.random() < 0.8]
         r = M.resolve(method, "degree", rng.choice(pool))
         s = r[1] - (1 if rng.random() < 0.3 and r[1] > 2 else 0)
@@ -134,7 +144,7 @@ def _gen_op(rng, cfg):
         b = None if rng.random() < 0.7 else rng.choice([3.0, 10.0, 49.0])
         return ["tf_new", cls, rmin, rmax, b]
     if kind == "tf_call":
-        n = rng.randint(1, 12)
+        n = rng.randint(1, 12) if rng.random() < 0.85 else rng.randint(13, 120)
         arr = ["range", n] if rng.random() < 0.5 else ["vals", [round(rng.uniform(0.0, 30.0), 3) for _ in range(n)]]
         return ["tf_call", rng.randrange(1000), rng.choice(TF_METHODS), arr]
     if kind == "coulomb":
@@ -260,13 +270,18 @@ def _cache_dicts():
 
 
 def _restart(which):
-    """Process restart with cold caches: only volatile state is lost."""
+    """Process restart: only volatile state is lost ("all" = every module-level container, lazily
+    loaded table and mutable default back to its import-time value; the partial variants clear one
+    cache family the way the test-suite does)."""
     import grid.coulomb as gc
 
-    if which in ("all", "angular"):
+    if which == "all":
+        procstate.restore()
+        return
+    if which == "angular":
         for d in _cache_dicts().values():
             d.clear()
-    if which in ("all", "coulomb"):
+    if which == "coulomb":
         if hasattr(gc, "_ATOMIC_GAUSS_PARAMS_CACHE"):
             gc._ATOMIC_GAUSS_PARAMS_CACHE = None
 
@@ -282,33 +297,24 @@ class _Cold:
         self.ctx = ctx
 
     def __enter__(self):
-        import grid.coulomb as gc
-
         c = self.ctx
         if c.sched is not None:
             c.sched.atomic_depth += 1
-        self.saved = {m: dict(d) for m, d in _cache_dicts().items()}
-        for d in _cache_dicts().values():
-            d.clear()
-        self.gc = gc
-        self.cc = getattr(gc, "_ATOMIC_GAUSS_PARAMS_CACHE", None)
-        if hasattr(gc, "_ATOMIC_GAUSS_PARAMS_CACHE"):
-            gc._ATOMIC_GAUSS_PARAMS_CACHE = None
+        self.saved = procstate.save_current()
+        procstate.restore()
         self.armed = c.store.armed
         c.store.armed = []
         self.counters = c.store.counters
         c.store.counters = Counter()
+        self.nlog = len(c.store.fired_log)
         return self
 
     def __exit__(self, *exc):
         c = self.ctx
-        for m, d in _cache_dicts().items():
-            d.clear()
-            d.update(self.saved.get(m, {}))
-        if hasattr(self.gc, "_ATOMIC_GAUSS_PARAMS_CACHE"):
-            self.gc._ATOMIC_GAUSS_PARAMS_CACHE = self.cc
+        procstate.load(self.saved)
         c.store.armed = self.armed
         c.store.counters = self.counters
+        del c.store.fired_log[self.nlog:]
         if c.sched is not None:
             c.sched.atomic_depth -= 1
         return False
@@ -1103,6 +1109,12 @@ class CacheHistoryEngine:
             nt = rng.choice([2, 2, 3])
             spec["threads"] = [[_gen_op(rng, cfg) for _ in range(rng.randint(3, 12))] for _ in range(nt)]
             spec["threads"] = [[(["reobserve", 0] if op[0] == "restart" else op) for op in t] for t in spec["threads"]]
+            if rng.random() < 0.5:
+                # contention opener: every thread starts by building the same (cold) key
+                m0 = rng.choice(cfg["methods"])
+                d0 = rng.choice(cfg["pool"][m0])
+                for t in spec["threads"]:
+                    t.insert(0, ["ang", m0, "degree", d0, True])
             spec["sched_seed"] = derive_seed(seed, "sched")
             spec["p_switch"] = rng.choice([0.005, 0.02, 0.08])
             spec["p_hot"] = rng.choice([0.1, 0.3, 0.6])
@@ -1225,4 +1237,5 @@ def _simpler_ops(op):
 
 
 def make_engine():
+    procstate.snapshot()
     return CacheHistoryEngine()
